@@ -182,3 +182,6 @@ package utils
 //@ extern strings.TrimSpace
 //@   noeffect
 //@   ensures not_longer: len(result) <= len(s)
+//@ extern regexp.Compile
+//@   noeffect
+//@   ensures compiled_or_error: r1 == nil ==> r0 != nil
